@@ -28,8 +28,8 @@ def does_same_as_function(other_func: F) -> F:
             other = other_func(*args, **kwargs)
 
             if other != result:
-                raise AssertionError(f'Different outputs: Function "{getattr(decorated_func, "__name__", repr(decorated_func))}" returns {result} and '
-                                     f'function "{getattr(other_func, "__name__", repr(other_func))}" returns {other} for parameters {args} {kwargs}')
+                raise AssertionError(f'Different outputs: Function "{decorated_func.__name__ if hasattr(decorated_func, "__name__") else repr(decorated_func)}" returns {result} and '
+                                     f'function "{other_func.__name__ if hasattr(other_func, "__name__") else repr(other_func)}" returns {other} for parameters {args} {kwargs}')
             return result
 
         @wraps(decorated_func)
@@ -42,8 +42,8 @@ def does_same_as_function(other_func: F) -> F:
                 other = other_func(*args, **kwargs)
 
             if other != result:
-                raise AssertionError(f'Different outputs: Function "{getattr(decorated_func, "__name__", repr(decorated_func))}" returns {result} and '
-                                     f'function "{getattr(other_func, "__name__", repr(other_func))}" returns {other} for parameters {args} {kwargs}')
+                raise AssertionError(f'Different outputs: Function "{decorated_func.__name__ if hasattr(decorated_func, "__name__") else repr(decorated_func)}" returns {result} and '
+                                     f'function "{other_func.__name__ if hasattr(other_func, "__name__") else repr(other_func)}" returns {other} for parameters {args} {kwargs}')
             return result
 
         if inspect.iscoroutinefunction(decorated_func):
